@@ -36,6 +36,8 @@ def khash(key):
 # --------------------------------------------------------------------------- frames
 
 TEXT_DTYPES = ("object", "category", "str")
+# text dtype / numeric dtype combinations drawn by the C06 cross driver
+FRAME_DTYPES = ("object", "category", "str", "object/Int64", "category/Float64")
 INDEX_KINDS = ("range", "str", "dup-str", "dup-int", "perm-int", "multi", "multi-dup")
 
 
@@ -69,16 +71,17 @@ def _lit(values):
     return "[" + ", ".join("None" if v is None else repr(v) for v in values) + "]"
 
 
-def column_values(n, masks):
+def column_values(n, masks, integral=False):
     """masks: dict col -> bitmask of null rows.  Values are distinct per row in the numeric
-    columns, so a numeric column pins down which input row an output row came from."""
+    columns, so a numeric column pins down which input row an output row came from.
+    integral: whole numbers (for nullable integer dtypes)."""
     out = {}
     for col, m in masks.items():
         if col in ("x", "z"):
-            base = 1.5 if col == "x" else 100.25
+            base = (2 if col == "x" else 100) if integral else (1.5 if col == "x" else 100.25)
             out[col] = [None if (m >> i) & 1 else i + base for i in range(n)]
         elif col == "y":
-            out[col] = [None if (m >> i) & 1 else 10.0 * (i + 1) + 0.25 for i in range(n)]
+            out[col] = [None if (m >> i) & 1 else (10 * (i + 1) if integral else 10.0 * (i + 1) + 0.25) for i in range(n)]
         elif col in ("A", "B"):
             lv = "abc" if col == "A" else "uv"
             out[col] = [None if (m >> i) & 1 else lv[i % len(lv)] for i in range(n)]
@@ -88,13 +91,17 @@ def column_values(n, masks):
 
 
 def frame_code(n, masks, index_kind="range", text_dtype="object", name="df"):
-    vals = column_values(n, masks)
+    """text_dtype: 'object' | 'category' | 'str', optionally followed by '/<numeric dtype>' for the numeric
+    columns ('float64' default; 'Int64' / 'Float64' = pandas nullable extension dtypes holding pd.NA)."""
+    text_dtype, _, num_dtype = text_dtype.partition("/")
+    num_dtype = num_dtype or "float64"
+    vals = column_values(n, masks, integral=num_dtype.lower().startswith(("int", "uint")))
     lines = [f"{name} = pd.DataFrame({{"]
     for col, v in vals.items():
         if col in ("A", "B"):
             lines.append(f"    {col!r}: pd.Series({_lit(v)}, dtype=object),")
         else:
-            lines.append(f"    {col!r}: pd.Series({_lit(v)}, dtype='float64'),")
+            lines.append(f"    {col!r}: pd.Series({_lit(v)}, dtype={num_dtype!r}),")
     lines.append("})")
     for col in vals:
         if col in ("A", "B"):
@@ -238,8 +245,8 @@ def expected_component(comp, df, cache):
     out = None
     if comp == "Intercept":
         out = np.ones(len(df))
-    elif comp in df.columns and df[comp].dtype.kind == "f":
-        out = df[comp].to_numpy(dtype=float)
+    elif comp in df.columns and df[comp].dtype.kind in "iuf":
+        out = df[comp].to_numpy(dtype=float, na_value=np.nan)
     elif comp in ("np.log(x)", "np.log(y)", "I(x * 2)"):
         out = np.asarray(unwrap(eval_factor(comp, df)), dtype=float)
     else:
